@@ -51,13 +51,13 @@ def makeStoneFriendly (E : Ext) (env : Env) (perms : List String) (strict : Bool
     | .str s => match E.b64dec s with
       | some (some h) => .ok (.bytes h)
       | some none => verr "invalid base64-encoded bytes"
-      | none => crash "ValueError"                 -- non-ASCII text: not caught by the decoder
+      | none => verr "invalid base64-encoded bytes"     -- non-ASCII text (ValueError)
     | _ => verr "invalid base64-encoded bytes"
   | .void _ => if strict && (match j with | .null => false | _ => true) then verr "expected null" else .ok .none
   | _ =>
     if validateIt then
-      if !perms.isEmpty then crash "AttributeError"   -- primitives have no validate_with_permissions
-      else match validate E env (t.withFlags {}) (pyOfJson j) with
+      -- primitives have no validate_with_permissions: plain validate whatever the caller holds
+      match validate E env (t.withFlags {}) (pyOfJson j) with
         | .error e => .error e
         | .ok _ => .ok (pyOfJson j)
     else .ok (pyOfJson j)
@@ -152,11 +152,7 @@ def decode (E : Ext) (env : Env) (perms : List String) (strict : Bool) (t : PTy)
         (decodeMembers E env perms strict (memberTable env perms strict t kvs) kvs)
     | _ => verr "expected object"
   | .tree _ cls => match j with
-    -- `'.tag' not in obj` on something that is not an object
-    | .null | .bool _ | .int _ | .flt _ => crash "TypeError"
-    | .str s => if (s.splitOn ".tag").length > 1 then crash "TypeError" else verr "missing '.tag' key"
-    | .arr xs => if xs.any (fun x => match x with | .str s => s == ".tag" | _ => false)
-        then crash "TypeError" else verr "missing '.tag' key"
+    | .null | .bool _ | .int _ | .flt _ | .str _ | .arr _ => verr "expected object"
     | .obj kvs => match jsonLookup ".tag" kvs with
       | none => verr "missing '.tag' key"
       | some (.str tag) => match env.struct? cls with
@@ -247,6 +243,14 @@ def jsonCompatObjDecode (E : Ext) (env : Env) (perms : List String) (strict : Bo
   let isPrim := !t.flags.nullable && match t with
     | .bool _ | .int .. | .float .. | .str .. | .bytes _ | .ts .. | .void _ => true
     | _ => false
-  if isPrim then makeStoneFriendly E env perms strict true t j else decode E env perms strict t j
+  if isPrim then makeStoneFriendly E env perms strict true t j else
+  match decode E env perms strict t j with
+  | .error e => .error e
+  | .ok v =>
+    -- top-level List / Map / Nullable results are validated at the entry point
+    let isContainer := t.flags.nullable || match t with
+      | .list .. | .map .. => true
+      | _ => false
+    if isContainer then validate E env t v else .ok v
 
 end StoneVerif.Rt
